@@ -29,6 +29,7 @@ type critNode struct {
 
 type critOperand struct {
 	kind  string // num str bool time name list
+	raw   bool   // string literal written in back quotes
 	num   float64
 	str   string
 	b     bool
@@ -65,6 +66,9 @@ func (o critOperand) expr() ast.Expr {
 	case "num":
 		return ast.Num(strconv.FormatFloat(o.num, 'g', -1, 64), pos.Unknown)
 	case "str":
+		if o.raw && !strings.ContainsAny(o.str, "`\r") {
+			return ast.Str("`"+o.str+"`", pos.Unknown) // back-quoted source literal
+		}
 		return ast.Str(strconv.Quote(o.str), pos.Unknown)
 	case "bool":
 		if o.b {
@@ -264,7 +268,7 @@ func genOperand(r *rand.Rand, ty string) critOperand {
 	case "num":
 		return critOperand{kind: "num", num: c20Nums[r.Intn(len(c20Nums))]}
 	case "str":
-		return critOperand{kind: "str", str: c20Strs[r.Intn(len(c20Strs))]}
+		return critOperand{kind: "str", str: c20Strs[r.Intn(len(c20Strs))], raw: r.Intn(3) == 0}
 	case "bool":
 		return critOperand{kind: "bool", b: r.Intn(2) == 0}
 	default:
@@ -389,6 +393,56 @@ func checkCriteria(c *run.Ctx, r *rand.Rand, tree *critNode) {
 			}
 		}
 	}
+	var f func(v interface{}) (string, error)
+	if perr := func() (p string) {
+		defer func() {
+			if r := recover(); r != nil {
+				p = fmt.Sprint(r)
+			}
+		}()
+		f = ext.CompileToSql(tree.criteria(), tenv)
+		return ""
+	}(); perr != "" {
+		c.Violation("sql-fault", fmt.Sprintf("compiling the criteria %s panics: %s", tree.flat(nil), perr), nil)
+		return
+	}
+	// the same compiled criteria rendered several times: first with nothing
+	// bound, then with the drawn bindings, then with other values
+	type round struct {
+		bound map[string]critOperand
+		venv  *val.Env
+	}
+	rounds := []round{{map[string]critOperand{}, val.NewEnv()}, {bound, venv}}
+	if r.Intn(2) == 0 {
+		rounds = rounds[1:]
+	}
+	b2, v2 := map[string]critOperand{}, val.NewEnv()
+	for _, n := range names {
+		if _, ok := bound[n]; ok || r.Intn(6) == 0 {
+			o := genOperand(r, c20Fields[n])
+			for o.kind == "name" {
+				o = genOperand(r, c20Fields[n])
+			}
+			b2[n] = o
+			switch o.kind {
+			case "num":
+				v2.Put(n, val.Num(o.num))
+			case "str":
+				v2.Put(n, val.Str(o.str))
+			case "bool":
+				v2.Put(n, val.Bool(o.b))
+			case "time":
+				v2.Put(n, val.Time(time.Unix(o.ts, 0)))
+			}
+		}
+	}
+	rounds = append(rounds, round{b2, v2})
+	for ri, rd := range rounds {
+		c20Render(c, tree, f, rd.bound, rd.venv, ri)
+	}
+}
+
+func c20Render(c *run.Ctx, tree *critNode, f func(v interface{}) (string, error), bound map[string]critOperand, venv *val.Env, ri int) {
 	want := tree.flat(bound)
 	var sql string
 	var err error
@@ -398,17 +452,17 @@ func checkCriteria(c *run.Ctx, r *rand.Rand, tree *critNode) {
 				p = fmt.Sprint(r)
 			}
 		}()
-		f := ext.CompileToSql(tree.criteria(), tenv)
 		sql, err = f(venv)
 		return ""
 	}(); perr != "" {
-		c.Violation("sql-fault", fmt.Sprintf("compiling / rendering the criteria %s panics: %s", tree.flat(nil), perr), nil)
+		c.Violation("sql-fault", fmt.Sprintf("rendering the criteria %s (call %d) panics: %s", tree.flat(nil), ri, perr), nil)
 		return
 	}
 	if err != nil {
-		c.Violation("sql-fault", fmt.Sprintf("rendering the criteria %s fails: %v", tree.flat(nil), err), nil)
+		c.Violation("sql-fault", fmt.Sprintf("rendering the criteria %s (call %d) fails: %v", tree.flat(nil), ri, err), nil)
 		return
 	}
+	c.Count("sql_texts_read_back", 1)
 	back, perr := ref.SQLParse(sql)
 	if perr != nil {
 		c.Violation("sql-unreadable", fmt.Sprintf("the WHERE text %q (criteria %s) does not read back: %v", sql, want, perr), nil)
@@ -417,7 +471,7 @@ func checkCriteria(c *run.Ctx, r *rand.Rand, tree *critNode) {
 	k := 0
 	got := readerFlat(back, nil, &k)
 	if !matchFlat(want, got) {
-		c.Violation("sql-structure", fmt.Sprintf("the WHERE text %q reads as %s; the criteria are %s", sql, got, want), nil)
+		c.Violation("sql-structure", fmt.Sprintf("the WHERE text %q (call %d of one compiled criteria) reads as %s; the criteria with these bindings are %s", sql, ri, got, want), nil)
 	}
 	c.Distinct(want)
 }
@@ -504,7 +558,7 @@ func min2(a, b int) int {
 func init() {
 	run.Register(&run.Spec{
 		ID: "C20", Run: runC20, Level: "exploration",
-		Rule: "every AND / OR / NOT tree shape to depth 3 (2 776 shapes, exhaustive: true for shapes; leaves random over =,<>,<,<=,>,>=,IN,BETWEEN,LIKE,IS NULL on num/str/bool/time columns), sampled depth 4-5, and every adversarial operand string (quotes, doubled quotes, backslashes, trailing backslash, injection attempts, %, _, NUL, ^Z, control, invalid UTF-8, CJK, zero-width) and boundary number (fractions, > 2^53, > 2^63, 1e19, 1e20) in every literal / bound-parameter position; names bound or unbound in the run-time environment at random; " +
+		Rule: "every AND / OR / NOT tree shape to depth 3 (2 776 shapes, exhaustive: true for shapes; leaves random over =,<>,<,<=,>,>=,IN,BETWEEN,LIKE,IS NULL on num/str/bool/time columns), sampled depth 4-5, and every adversarial operand string (quotes, doubled quotes, backslashes, trailing backslash, injection attempts, %, _, NUL, ^Z, control, invalid UTF-8, CJK, zero-width) and boundary number (fractions, > 2^53, > 2^63, 1e19, 1e20) in every literal / bound-parameter position; names bound or unbound in the run-time environment at random, each compiled criteria rendered 2-3 times with different bindings (unbound, bound, other values); string literals also in back-quoted source form; " +
 			"monitor = independent reader of the emitted dialect (backtick identifiers, double-quoted strings with backslash escapes, from_unixtime(n)); standard precedence comparison > NOT > AND > OR; AND/OR chains flattened; structure and operands compared with the criteria tree: each string operand must read back as exactly one literal (content compared whenever it is printable), numbers by value, booleans as 1/0, times by unix seconds, unbound names as columns, bound names as their values. distinct = distinct flattened criteria",
 		Assume:    []string{"non-finite numbers have no SQL form and are not generated", "string contents containing non-printable characters are checked for containment only (Go-style escapes such as \\x00 do not round-trip in MySQL but cannot leave the literal)"},
 		MinEvents: 3000, EventKey: "criteria_compiled",
